@@ -429,5 +429,34 @@ fn main() {
         }
         run.merge(t);
     }
+    // every variable name: all strings of <= N characters over A-Z and '_' as the name of a one-line
+    // entry must be reported as an unknown variable unless it is one of the 23 (no name table,
+    // hash or prefix scheme can accept a stranger within this length)
+    {
+        const AZ: &[u8] = b"ABCDEFGHIJKLMNOPQRSTUVWXYZ_";
+        let n = run.pick(4, 6);
+        run.bound(format!("every variable name: all {} strings of <= {} characters over A-Z and '_' as NAME=x", seqs::count(AZ.len(), n), n));
+        seqs::par_seqs(&run, "C08 names", AZ.len(), n, 2, |_| false, |q, t| {
+            if q.is_empty() {
+                return;
+            }
+            let mut line = String::with_capacity(q.len() + 2);
+            for i in q {
+                line.push(AZ[*i] as char);
+            }
+            let known = ms::var_index(&line).is_some();
+            line.push_str("=x");
+            t.evals += 1;
+            t.validated += 1;
+            match guard(|| Summary::from_str(&line).map(|_| ())) {
+                Ok(Err(SummaryError::ParseVariable(_))) if !known => t.outcome("name/unknown-rejected"),
+                Ok(Err(SummaryError::Incomplete(_))) | Ok(Err(SummaryError::ParseInt(_))) if known => {
+                    t.nontrivial += 1;
+                    t.outcome("name/known-accepted")
+                }
+                other => t.violation(Violation::new("text", json!({"text": line}), json!(if known { "a supported variable" } else { "unknown variable" }), json!(format!("{:?}", other.map(|r| r.map_err(|e| e.to_string())))), "a name that is not one of the 23 supported variables must be reported as an unknown variable")),
+            }
+        });
+    }
     run.finish();
 }
